@@ -49,7 +49,8 @@ LAYOUT = {  # iface -> registered paths (instance tag = index into ALL_PATHS)
 }
 SPAWN_FALSE = {1, 4}
 DERIVED_PROXY = {2, 5}
-# doc kinds: 0 none, 1 plain two lines, 2 <a & b>, 3 ]]>, 4 double quote, 5 "--", 6 "-->"
+# doc kinds: 0 none, 1 plain two lines, 2 <a & b>, 3 ]]>, 4 double quote, 5 "--", 6 "-->",
+# 7 "---", 8 a longer run of hyphens and a trailing hyphen
 DOCS = {
     0: [],
     1: ["Plain words.", "Second line of the plain doc."],
@@ -58,6 +59,8 @@ DOCS = {
     4: ['Says "hi" in double quotes.'],
     5: ["A dash pair -- inside the text."],
     6: ["An arrow --> inside the text."],
+    7: ["A horizontal rule --- in the text."],
+    8: ["A table separator |-----| and a dash at the end -"],
 }
 BENIGN_DOCS = [1, 2, 3, 4, 0]
 
@@ -76,7 +79,7 @@ def shapes():
 def doc_for(iface, k):
     """Doc kind of the k-th documented member of an interface."""
     if iface == 6:
-        return [5, 1, 2, 5, 0, 4][k % 6]
+        return [5, 7, 2, 8, 0, 4][k % 6]
     if iface == 7:
         return [6, 3, 1, 6, 0, 2][k % 6]
     return BENIGN_DOCS[k % len(BENIGN_DOCS)]
